@@ -211,7 +211,7 @@ func anyCancelBefore(calls []call, i int) bool {
 	return false
 }
 
-func plans(tier string) []mc.Plan {
+func basePlans(tier string) []mc.Plan {
 	var ps []mc.Plan
 	metas := []string{"none", "m1", "m2"}
 	if tier == "thorough" {
@@ -261,6 +261,16 @@ func plans(tier string) []mc.Plan {
 		}
 	}
 	return ps
+}
+
+// plans adds, to every scenario, a twin explored relative to the reversed default schedule (a
+// second reference schedule for the deviation bound).
+func plans(tier string) []mc.Plan {
+	ps := basePlans(tier)
+	if tier == "thorough" {
+		return mc.WithReversed(ps, 1)
+	}
+	return mc.WithReversed(ps, 1)
 }
 
 func init() {
